@@ -72,9 +72,18 @@ def plan(seed, subbatch):
     shared = tf is not None and subbatch == "faulty" and cfg.random() < 0.25
     if shared:
         fired["candle_objects_shared_with_upstream_consumer"] += 1
+    # other members of the same Hexital on coarser multiples of the timeframe: every manager of a Hexital is
+    # served by the same converter object, each must still follow its own recurrence
+    siblings = []
+    fam = sub_rng(seed, "family")
+    if route in ("hexital_member", "hexital_level") and tf and lifespan is None and fam.random() < 0.3:
+        unit, k = tf[0], int(tf[1:])
+        for mult in fam.sample((2, 3, 4, 6), fam.randint(1, 2)):
+            siblings.append([f"{unit}{k * mult}", fam.random() < 0.6])
+        fired["sibling_members_on_coarser_timeframes"] += 1
     return {"format": 1, "property": ID, "seed": seed, "subbatch": subbatch,
             "config": {"route": route, "tf": tf, "base_s": base_s, "spec": spec, "lifespan_s": lifespan,
-                       "shared_objects": shared},
+                       "shared_objects": shared, "siblings": siblings},
             "ops": [{"op": "new", "preload": pre}] + ops, "fired": dict(fired)}
 
 
@@ -110,7 +119,7 @@ def execute(trace, ctx=None):
                     rows = op.get("preload") or []
                     delivered.extend(rows)
                     subject, _m, view = run.call(len(rows), build_route, route, tf, rows, False, lifespan,
-                                                 "HA", spec)
+                                                 "HA", spec, None, cfg.get("siblings"))
                 elif subject is None:
                     continue
                 elif kind == "append":
